@@ -161,12 +161,17 @@ def native_grid(prop, tier, seed):
                         cases.append(("nonfinite", dict(n=n, p=p, val=val, where=where, i=i, j=j, weights=1 if where == "w" or (i + j) % 2 else 0)))
                         if val in ("nan", "inf") and where in ("phi", "w"):
                             cases.append(("nonfinite", dict(n=n, p=p, val=val, where=where, i=i, j=j, weights=1, par=1)))
+    if prop == "C08":
+        cases.append(("shapes", dict(nmax=5 if tier == "quick" else 7, pmax=3 if tier == "quick" else 4)))
     if prop == "C09":
-        for (n, p) in ([(6, 1)] if tier == "quick" else [(6, 1), (8, 2)]):
-            for persistent in (0, 1):
-                for k in range(0, 26 if tier == "quick" else 60):
-                    cases.append(("faultfit", dict(n=n, p=p, k=k, persistent=persistent)))
-            cases.append(("faultfit", dict(n=n, p=p)))
+        # a model failure at EVERY call index of a complete build -> fit_with_statistics (the fault-free run is counted first),
+        # transient and persistent, from several starting points (different optimizer trajectories: rejected trial steps,
+        # termination right after one, different convergence criteria)
+        shapes = [(6, 1, f) for f in range(0, 4)] + [(8, 2, 0), (8, 2, 1)]
+        if tier == "thorough":
+            shapes += [(8, 2, 2), (8, 2, 3), (7, 1, 4), (10, 3, 0), (10, 3, 1), (5, 1, 5)]
+        for (n, p, far) in shapes:
+            cases.append(("faultsweep", dict(n=n, p=p, far=far)))
     if prop == "C04":
         cases += [("fitmap", {}), ("fwsmap", {})]
     if prop == "C12":
@@ -187,7 +192,7 @@ def native_grid(prop, tier, seed):
     seen_roles = set()
     for (sc, cfg) in cases:
         for profile in (("release", "dev") if tier == "thorough" else ("release",)):
-            d = h.run("f64", sc, cfg, profile=profile, timeout=15)
+            d = h.run("f64", sc, cfg, profile=profile, timeout=(120 if sc in ("faultsweep", "shapes") else 15))
             part["obligations"] += 1
             part["states"] += 1
             part["traces_validated"] += 1
